@@ -3,13 +3,16 @@
 cd "$(dirname "$(readlink -f "$0")")/.."
 declare -A RUNS=( [C09]=4000 [C10]=12000 [C12]=4000 [C19]=3000 [C20]=4500 )
 OUT=seeded/RESULTS.md
-echo "| change | property | result (quick tier) |" > $OUT; echo "|---|---|---|" >> $OUT
+echo "| change | property | result (quick tier unless stated) |" > $OUT; echo "|---|---|---|" >> $OUT
 for d in seeded/*/; do
   id=$(basename $d); props=$(/venv/bin/python -c "import json;print(json.load(open('$d/meta.json'))['breaks_property'])")
   case "$props" in none*) plist="C09 C10 C12 C19 C20"; runs=1500;; *) plist=$(echo $props | tr ',' ' '); runs=0;; esac
   for p in $plist; do
     r=$runs; [ $r -eq 0 ] && r=${RUNS[$p]}
-    res=$(tools/try_mutant.sh $d/patch.diff $r $p | head -1 | cut -c1-260)
+    tier=$(/venv/bin/python -c "import json;print(json.load(open('$d/meta.json')).get('tier_needed','quick'))")
+    [ "$tier" = thorough ] && r=8000
+    res=$(TIER=$tier tools/try_mutant.sh $d/patch.diff $r $p | head -1 | cut -c1-260)
+    [ "$tier" = thorough ] && res="(thorough tier, $r runs) $res"
     echo "| $id | $p | $res |" >> $OUT
   done
 done
